@@ -398,7 +398,17 @@ func (j *revTracker) observe(op *world.Op, res *world.Result) {
 			j.specOf[c] = op.Chart
 		}
 	}
-	// revisions created by rollbacks (explicit, or the internal one of --atomic) copy a stored manifest: map by manifest text
+	// an explicit rollback copies its target revision
+	if op.Kind == "rollback" && len(created) > 0 {
+		tv := op.Target
+		if tv == 0 {
+			tv = maxRev(res.Pre) - 1
+		}
+		if s, ok := j.specOf[tv]; ok {
+			j.specOf[created[0]] = s
+		}
+	}
+	// the internal rollback of --atomic copies a stored manifest: map by manifest text, most recent revision first
 	for _, c := range created {
 		if _, ok := j.specOf[c]; ok {
 			continue
@@ -407,7 +417,7 @@ func (j *revTracker) observe(op *world.Op, res *world.Result) {
 		for v := range j.specOf {
 			vs = append(vs, v)
 		}
-		sort.Ints(vs)
+		sort.Sort(sort.Reverse(sort.IntSlice(vs)))
 		for _, v := range vs {
 			if pr, ok := postSet[v]; ok && pr.Manifest == postSet[c].Manifest {
 				j.specOf[c] = j.specOf[v]
